@@ -203,7 +203,7 @@ def matrix_cases(tier, seed, stores=("local",)):
                 d.update({"position": pos, "import_form": form, "layout": layout})
                 emit("import:%s/%s@%s" % (form, layout, pos), p0, p1, d)
     # D7: higher-order reference, lambda, nested def, class/method
-    for variant in ("ref", "lambda_call", "nested_def", "nested_def_var", "method_const", "method_var", "method_callee"):
+    for variant in ("ref", "lambda_call", "nested_def", "nested_def_var", "method_const", "method_var", "method_callee", "cls_attr", "cls_attr_other_module"):
         for pos in ("A", "main", "C"):
             p0 = base_program("pm%d" % k)
             k += 1
@@ -241,6 +241,16 @@ def matrix_cases(tier, seed, stores=("local",)):
                     p1 = gen.clone(p0)
                     p1["fns"][ids[pos]]["stmts"][-1]["const"] = 61
                     d = {"kind": "set_const", "fn": f["name"], "site": ["T", f["name"]]}
+            elif variant in ("cls_attr", "cls_attr_other_module"):
+                # a class-level constant read through the class name, without creating an instance
+                cmod = mod if variant == "cls_attr" else p0["_ids"]["leaf"]
+                if variant == "cls_attr_other_module" and cmod == mod:
+                    continue
+                cid = gen.add_cls(p0, cmod, "Cfg", const=80, attr=7)
+                p0["order"][cmod].remove(("cls", cid))
+                p0["order"][cmod].insert(0, ("cls", cid))
+                f["stmts"].append(gen.s_clsattr(cid))
+                p1, d = gen.e_set_cls_attr(p0, cid)
             else:
                 vid = callee = None
                 if variant == "method_var":
@@ -479,11 +489,17 @@ def random_program(rng, pkg, nfn=None, with_loads=False):
             # a class whose method is used by this function (optionally reading a variable / calling a leaf function)
             leafs = [g for g in fids if not p["fns"][g]["params"] and p["fns"][g]["data_path"] is None and not _has_keep_site(p, g) and g not in kept_callees and mods.index(p["fns"][g]["module"]) <= mi]
             vv = [v for v in vids if mods.index(p["vars"][v]["module"]) <= mi and p["vars"][v]["module"] == m]
-            cid = gen.add_cls(p, m, "RK%d" % i, const=200 + i, var=rng.choice(vv) if vv and rng.random() < 0.5 else None, calls=rng.choice(leafs) if leafs and rng.random() < 0.5 else None)
+            cid = gen.add_cls(p, m, "RK%d" % i, const=200 + i, var=rng.choice(vv) if vv and rng.random() < 0.5 else None, calls=rng.choice(leafs) if leafs and rng.random() < 0.5 else None,
+                              attr=rng.randrange(1, 9) if rng.random() < 0.5 else None)
             # the class must be defined before the function that uses it
             p["order"][m].remove(("cls", cid))
             p["order"][m].insert(p["order"][m].index(("fn", fid)), ("cls", cid))
-            f["stmts"].append(gen.s_method(cid, rng.choice(["1", "'m'", "None"])))
+            if p["classes"][cid]["attr"] is not None and rng.random() < 0.6:
+                f["stmts"].append(gen.s_clsattr(cid))
+                if rng.random() < 0.5:
+                    f["stmts"].append(gen.s_method(cid, rng.choice(["1", "'m'", "None"])))
+            else:
+                f["stmts"].append(gen.s_method(cid, rng.choice(["1", "'m'", "None"])))
         fids.append(fid)
     # entry: a fresh function calling the last few roots
     m = mods[-1]
@@ -554,6 +570,9 @@ def random_edit(rng, p, tag):
     """One random edit of p (any kind)."""
     r = rng.random()
     fids = gen.reach(p, p["entry"])
+    with_attr = sorted(c for c in p.get("classes", {}) if p["classes"][c].get("attr") is not None)
+    if with_attr and 0.86 < r <= 0.92:
+        return gen.e_set_cls_attr(p, rng.choice(with_attr))
     if p.get("lazy") and r > 0.92:
         return gen.e_set_lazy(p, rng.choice(["const", "var"]))
     if r < 0.3 and p["vars"]:
